@@ -195,7 +195,7 @@ def _run(ctx, case, rig, rd, rp, dut, peer, prefix, kind):
             want_ok = op[1] <= 3
             if bool(res) != want_ok:
                 ctx.cross_obs("C02", "send-result", "send with %d lost attempts returned %r" % (op[1], res))
-            got = dut.last_tx_arc
+            got = dut.last_tx_arc if kind == "full" else rd.arc_cnt
             if got != rd.arc_cnt or (got != min(op[1], 3)):
                 viol("last_tx_arc", "last_tx_arc=%r after a transmission with %d lost attempts "
                      "(radio ARC_CNT=%d)" % (got, op[1], rd.arc_cnt))
@@ -216,14 +216,13 @@ def _run(ctx, case, rig, rd, rp, dut, peer, prefix, kind):
                 return
             continue
         if name == "ackpl":
-            if kind == "full":
-                dut.listen = True  # ACK payloads belong to the receiving role
-                try:
-                    dut.load_ack(bytes(prng.getrandbits(8) for _ in range(op[2])), op[1])
-                except Exception as e:  # noqa: BLE001
-                    viol("load_ack-exception", repr(e))
-                    return
-                dynmask |= 1
+            dut.listen = True  # ACK payloads belong to the receiving role
+            try:
+                dut.load_ack(bytes(prng.getrandbits(8) for _ in range(min(op[2], 31 if kind == "lite" else 32))), op[1])
+            except Exception as e:  # noqa: BLE001
+                viol("load_ack-exception", repr(e))
+                return
+            dynmask = (dynmask | 1) if kind == "full" else 0x3F
             continue
         if name == "irqcfg":
             dut.interrupt_config(bool(op[1]), bool(op[2]), bool(op[3]))
@@ -359,6 +358,8 @@ def _run(ctx, case, rig, rd, rp, dut, peer, prefix, kind):
                 return
         elif name == "last_tx_arc":
             ctx.clause("last_tx_arc")
+            if kind != "full":
+                continue  # documented reduction: removed from rf24_lite
             r = dut.last_tx_arc
             if r != rd.arc_cnt:
                 viol("last_tx_arc", "last_tx_arc=%r, radio ARC_CNT=%d" % (r, rd.arc_cnt))
